@@ -8,6 +8,13 @@ namespace Oryx.Props.C14
 open Oryx Oryx.WsRead Oryx.Gen.Websocket
 open Oryx.Spec.Ws (Frame Role serialise serialiseAll recv End)
 
+/-- gate: the reader model starts on the byte string `serialiseAll fs` — ALL the bytes the peer sent after the opening
+handshake. For a client obtained from `Dial` that is so because the handshake response is read through the buffered
+reader the session keeps using: whatever the server sent right behind its 101 response is still in that reader
+(regenerated from client.go on every run; the driver reads through dialled connections whose first transport read
+carries the response and the frames together). -/
+example : dialReadsThroughSessionReader = true := by decide
+
 /-- The role of the endpoint that runs the reader. -/
 abbrev role (isServer : Bool) : Role := roleOf isServer
 
